@@ -178,3 +178,97 @@ def entry_matches(state_line, doc):
     if ws[0] == 'bal':
         return True
     return d[0] == ws[0] and len(d) > 1 and d[1] == 'k=' + a.get('k', '')
+
+
+def msg_header(hexmsg):
+    b = bytes.fromhex(hexmsg)
+    if len(b) < 116:
+        return None
+    return {'version': int.from_bytes(b[0:4], 'big'), 'src': int.from_bytes(b[4:8], 'big'), 'dst': int.from_bytes(b[8:12], 'big'),
+            'nonce': int.from_bytes(b[12:20], 'big'), 'sender': b[20:52], 'recipient': b[52:84], 'caller': b[84:116], 'body': b[116:]}
+
+
+def burn_body(b):
+    if len(b) != 132:
+        return None
+    return {'version': int.from_bytes(b[0:4], 'big'), 'token': b[4:36], 'recipient': b[36:68], 'amount': int.from_bytes(b[68:100], 'big'), 'sender': b[100:132]}
+
+
+def events(obs, name):
+    out = []
+    for e in obs.get('E', []):
+        ws = e.split(' ')
+        if len(ws) > 1 and ws[1] == name:
+            out.append(args_of(e))
+    return out
+
+
+def nonce_set(st):
+    return set((int(a['domain']), int(a['nonce'])) for a in st['nonce'])
+
+
+# ---------------- C02 ----------------
+def mon_c02(scripts, stats):
+    for sc in scripts:
+        received = set()
+        for _sc, n, inp, cmd, ty, a, pre, obs in walk([sc]):
+            if cmd == 'Q' and ty == 'UsedNonce':
+                used = (int(a['domain']), int(a['nonce'])) in nonce_set(state_of(pre))
+                stats['mon_c02_queries'] += 1
+                got = obs.get('QR', [''])[0].startswith('ok')
+                if got != used:
+                    yield sc, n, 'C02: used-nonce query for (%s,%s) answered %s but the pair is %sin the store' % (a['domain'], a['nonce'], got, '' if used else 'not ')
+                continue
+            if cmd != 'TX':
+                continue
+            s0, s1 = nonce_set(state_of(pre)), nonce_set(state_of(obs.get('S', [])))
+            stats['mon_c02_steps'] += 1
+            if not s0 <= s1:
+                yield sc, n, 'C02: %s (%s) made used pairs %s free again' % (ty, outcome(obs), sorted(s0 - s1)[:3])
+            new = s1 - s0
+            pair = None
+            if ty == 'ReceiveMessage' and outcome(obs) == 'ok':
+                h = msg_header(a['message'])
+                pair = (h['src'], h['nonce']) if h else None
+                if pair in s0 or pair in received:
+                    yield sc, n, 'C02: second successful receive of pair %s' % (pair,)
+                if pair not in s1:
+                    yield sc, n, 'C02: successful receive of pair %s did not mark it used' % (pair,)
+                received.add(pair)
+            if new - ({pair} if pair else set()):
+                yield sc, n, 'C02: %s (%s) marked pairs %s used without a successful receive of them' % (ty, outcome(obs), sorted(new)[:3])
+
+
+# ---------------- C07 ----------------
+def mon_c07(scripts, stats):
+    M64 = 1 << 64
+    for sc, n, inp, cmd, ty, a, pre, obs in walk(scripts):
+        if cmd == 'Q' and ty == 'NextAvailableNonce':
+            v = state_of(pre)['num'].get('nextnonce')
+            q = obs.get('QR', [''])[0]
+            stats['mon_c07_queries'] += 1
+            if v is not None and q != 'ok v=' + v:
+                yield sc, n, 'C07: next-available-nonce query returned %r, the counter is %s' % (q, v)
+            continue
+        if cmd != 'TX':
+            continue
+        nn0 = int(state_of(pre)['num'].get('nextnonce', '0'))
+        nn1 = int(state_of(obs.get('S', []))['num'].get('nextnonce', '0'))
+        ok = outcome(obs) == 'ok'
+        stats['mon_c07_steps'] += 1
+        sent = [msg_header(e['message']) for e in events(obs, 'MessageSent')]
+        if ty in PRODUCERS and ok:
+            r = args_of(obs['R'][0])
+            if int(r.get('nonce', '-1')) != nn0:
+                yield sc, n, 'C07: %s returned nonce %s, the counter was %d' % (ty, r.get('nonce'), nn0)
+            if len(sent) != 1 or sent[0] is None or sent[0]['nonce'] != nn0:
+                yield sc, n, 'C07: %s emitted nonce %s, the counter was %d' % (ty, [s and s['nonce'] for s in sent], nn0)
+            if nn1 != (nn0 + 1) % M64:
+                yield sc, n, 'C07: counter went %d -> %d on a successful %s' % (nn0, nn1, ty)
+        else:
+            if nn1 != nn0:
+                yield sc, n, 'C07: counter went %d -> %d on %s (%s)' % (nn0, nn1, ty, outcome(obs))
+            if ty in ('ReplaceMessage', 'ReplaceDepositForBurn') and ok:
+                o = msg_header(a['orig'])
+                if len(sent) != 1 or sent[0] is None or o is None or sent[0]['nonce'] != o['nonce']:
+                    yield sc, n, 'C07: %s emitted nonce %s, the original carries %s' % (ty, [s and s['nonce'] for s in sent], o and o['nonce'])
